@@ -709,19 +709,68 @@ func eqConst(x sym, c int64) string {
 	panic(unsupported{"eqConst on non-integer"})
 }
 
-// inRange builds lo <= x < hi for a symbolic integer.
+// inRange builds lo <= x < hi for a symbolic integer (0 <= lo <= hi < 2^62).
 func inRange(x sym, lo, hi int64) string {
 	switch x.k {
 	case skBV:
 		w := bkWidth(x.bk)
-		if bkSigned(x.bk) {
-			return "(and (bvsle " + bvLit(uint64(lo), w) + " " + x.t + ") (bvslt " + x.t + " " + bvLit(uint64(hi), w) + "))"
+		t := x.t
+		if w < 64 {
+			if bkSigned(x.bk) {
+				t = fmt.Sprintf("((_ sign_extend %d) %s)", 64-w, t)
+			} else {
+				t = fmt.Sprintf("((_ zero_extend %d) %s)", 64-w, t)
+			}
 		}
-		return "(and (bvule " + bvLit(uint64(lo), w) + " " + x.t + ") (bvult " + x.t + " " + bvLit(uint64(hi), w) + "))"
+		if bkSigned(x.bk) {
+			return "(and (bvsle " + bvLit(uint64(lo), 64) + " " + t + ") (bvslt " + t + " " + bvLit(uint64(hi), 64) + "))"
+		}
+		return "(and (bvule " + bvLit(uint64(lo), 64) + " " + t + ") (bvult " + t + " " + bvLit(uint64(hi), 64) + "))"
 	case skInt:
 		return "(and (<= " + intLit(lo) + " " + x.t + ") (< " + x.t + " " + intLit(hi) + "))"
 	}
 	panic(unsupported{"inRange on non-integer"})
+}
+
+// tableLookup returns elems[idx] for a symbolic index into a table of concrete scalars as one
+// ITE term (no forking). ok=false when the table is not all-concrete scalars of one kind.
+func tableLookup(fr *frame, elems []value, n int, at func(i int) value, idx sym) (value, bool) {
+	if n == 0 || n > 1024 {
+		return nil, false
+	}
+	bk := bkOfValue(at(0))
+	if !bkIsInt(bk) {
+		return nil, false
+	}
+	counts := map[uint64]int{}
+	for i := 0; i < n; i++ {
+		v := at(i)
+		if isSym(v) || bkOfValue(v) != bk {
+			return nil, false
+		}
+		counts[asU64(v)]++
+	}
+	pc := fr.i.pc
+	if !pc.branch(inRange(idx, 0, int64(n))) {
+		panic(goPanic{fmt.Sprintf("index out of range [symbolic] with length %d", n)})
+	}
+	var def uint64
+	best := -1
+	for v, c := range counts {
+		if c > best || (c == best && v < def) {
+			def, best = v, c
+		}
+	}
+	w := bkWidth(bk)
+	t := bvLit(def, w)
+	for i := n - 1; i >= 0; i-- {
+		v := asU64(at(i))
+		if v == def {
+			continue
+		}
+		t = "(ite " + eqConst(idx, int64(i)) + " " + bvLit(v, w) + " " + t + ")"
+	}
+	return sym{k: skBV, bk: bk, t: pc.def(bvSort(w), t)}, true
 }
 
 // concretizeInt forks over the feasible values of symbolic integer x in [lo,hi].
